@@ -238,3 +238,37 @@ ENSURES(first_argument_shortcut_is_sound, (__CPROVER_return_value & 1) != 0)
 ENSURES(second_argument_shortcut_is_sound, (__CPROVER_return_value & 2) != 0)
 ENSURES(equal_arguments_shortcut_is_sound, (__CPROVER_return_value & 4) != 0)
 ;
+/* ---- EV+ shortcuts, point-wise with NON-TERMINAL operands -------------------------------------------------
+ * An EV+ operand <v, n> denotes: n == OMEGA_INFINITY: infinity everywhere; n == OMEGA_NORMAL: the constant v; n > 0 (a stored node):
+ * v + g(x) for the node's function g >= 0 (possibly infinite).  At an arbitrary assignment x the ghosts (d, di) stand for g(x).
+ * A shortcut that answers "the result is the first (second) operand" is sound iff, at every assignment, the scalar kernel applied to the
+ * operands' values gives the value of that operand (and raises nothing). */
+long w_av, w_bv;   /* witnesses: the operands' edge values (for the native replay) */
+#define EVPW_REQ() \
+    __CPROVER_requires(__CPROVER_is_fresh(av, sizeof(*av)) && __CPROVER_is_fresh(bv, sizeof(*bv)) && av->mytype == edge_type__LONG && bv->mytype == edge_type__LONG) \
+    __CPROVER_requires(__CPROVER_is_fresh(f1, sizeof(*f1)) && __CPROVER_is_fresh(f2, sizeof(*f2))) \
+    __CPROVER_requires((ap == OMEGA_NORMAL || ap == OMEGA_INFINITY || ap > 0) && (bp == OMEGA_NORMAL || bp == OMEGA_INFINITY || bp > 0) && verif_exc == 0) \
+    /* the caller (arith_templ.h compute) consults the shortcuts only after the terminal-terminal case went to the kernel (unless forced by levels in identity-reduced relations: not covered) */ \
+    __CPROVER_requires(ap > 0 || bp > 0) \
+    __CPROVER_requires(-(1l << 40) < av->ev_long && av->ev_long < (1l << 40) && -(1l << 40) < bv->ev_long && bv->ev_long < (1l << 40) && 0 <= da && da < (1l << 40) && 0 <= db && db < (1l << 40))
+int lemma_evplus_mult_shortcuts_pw(struct forest *f1, struct forest *f2, const struct edge_value *av, node_handle ap, const struct edge_value *bv, node_handle bp, long da, _Bool dai, long db, _Bool dbi)
+EVPW_REQ()
+WITNESS(lemma_evplus_mult_shortcuts_pw, av->ev_long == w_av && bv->ev_long == w_bv)
+__CPROVER_assigns(verif_exc)
+ENSURES(first_argument_shortcut_is_pointwise_sound, (__CPROVER_return_value & 1) != 0)
+ENSURES(second_argument_shortcut_is_pointwise_sound, (__CPROVER_return_value & 2) != 0)
+;
+int lemma_evplus_div_shortcuts_pw(struct forest *f1, struct forest *f2, const struct edge_value *av, node_handle ap, const struct edge_value *bv, node_handle bp, long da, _Bool dai, long db, _Bool dbi)
+EVPW_REQ()
+WITNESS(lemma_evplus_div_shortcuts_pw, av->ev_long == w_av && bv->ev_long == w_bv)
+__CPROVER_assigns(verif_exc)
+ENSURES(first_argument_shortcut_is_pointwise_sound, (__CPROVER_return_value & 1) != 0)
+ENSURES(second_argument_shortcut_is_pointwise_sound, (__CPROVER_return_value & 2) != 0)
+;
+int lemma_evplus_mod_shortcuts_pw(struct forest *f1, struct forest *f2, const struct edge_value *av, node_handle ap, const struct edge_value *bv, node_handle bp, long da, _Bool dai, long db, _Bool dbi)
+EVPW_REQ()
+WITNESS(lemma_evplus_mod_shortcuts_pw, av->ev_long == w_av && bv->ev_long == w_bv)
+__CPROVER_assigns(verif_exc)
+ENSURES(first_argument_shortcut_is_pointwise_sound, (__CPROVER_return_value & 1) != 0)
+ENSURES(second_argument_shortcut_is_pointwise_sound, (__CPROVER_return_value & 2) != 0)
+;
